@@ -268,6 +268,8 @@ func crashsim(args []string) error {
 	waitAck := fs.Bool("waitack", true, "hold: wait for the answer of the held operation before the kill")
 	snapCount := fs.Int("snapcount", 8, "")
 	walSeg := fs.Int("walseg", 2048, "")
+	maxCommitted := fs.Int("maxcommitted", 0, "vnode -maxcommitted (bytes)")
+	noise := fs.Int("noise", 0, "unrecorded clients that hammer an unmodelled counter at full speed: bursts of proposals per Ready (with a small -maxcommitted the committed entries of a Ready then straddle its new entries) without making the recorded history any bigger")
 	optFsync := fs.Bool("optfsync", false, "namespace option optimized_fsync (WAL flushed, not fsynced, on most saves)")
 	think := fs.Int("think", 0, "mean client think time in ms (0 = none); slows the log down so that snapshots do not overlap")
 	delay := fs.Int("delay", 0, "ms the dying goroutine blocks at the hook before the kill (concurrent goroutines finish their step)")
@@ -278,6 +280,9 @@ func crashsim(args []string) error {
 		"-walseg", fmt.Sprint(*walSeg)}
 	if *optFsync {
 		extra = append(extra, "-optfsync")
+	}
+	if *maxCommitted > 0 {
+		extra = append(extra, "-maxcommitted", fmt.Sprint(*maxCommitted))
 	}
 	cl, err := newCluster(*vnode, *root, *n, *engine, extra)
 	if err != nil {
@@ -305,6 +310,38 @@ func crashsim(args []string) error {
 	}
 	if err := s.boot(); err != nil {
 		return fail(err)
+	}
+	stopNoise := make(chan struct{})
+	defer close(stopNoise)
+	for i := 0; i < *noise; i++ {
+		go func(i int) {
+			var c *respConn
+			for {
+				select {
+				case <-stopNoise:
+					if c != nil {
+						c.close()
+					}
+					return
+				default:
+				}
+				if c == nil {
+					var err error
+					if c, err = dialResp(cl.redisPort(1+i%cl.n), time.Second); err != nil {
+						c = nil
+						time.Sleep(50 * time.Millisecond)
+						continue
+					}
+				}
+				if _, err := c.do(2*time.Second, "incr", keyPrefix+"noise"); err != nil {
+					if _, isReply := err.(respErr); !isReply {
+						c.close()
+						c = nil
+					}
+					time.Sleep(20 * time.Millisecond)
+				}
+			}
+		}(i)
 	}
 
 	switch *kind {
